@@ -207,4 +207,19 @@ theorem of_mem_rootNames {gs : List Obj} {f : Name} (h : f ∈ rootNames gs) :
       exact ⟨hc.1, rfl, hc.2⟩
     · cases hh
 
+/-- `parseUnit` succeeded: the three phases -/
+theorem parseUnit_ok {ds : List Decl} {gs : List Obj} (h : parseUnit ds = .ok gs) :
+    ∃ st gs', declAll {} ds = .ok st ∧ markRoots st.globals = some gs' ∧ gs = scanGlobals gs' := by
+  unfold parseUnit at h
+  simp only [bind, Except.bind] at h
+  split at h
+  · cases h
+  · rename_i st hst
+    split at h
+    · cases h
+    · rename_i gs' hm
+      simp only [pure, Except.pure, Except.ok.injEq] at h
+      exact ⟨st, gs', hst, hm, h.symm⟩
+
+
 end ChibiVerif.Linkage
